@@ -46,18 +46,34 @@ def _cases(draw):
         seq = draw(gen.seq_cases(n_min=1 if backend == "sv" else 2, n_max=6, basis="rydberg", allow_mod=False, allow_local=False,
                                  allow_dmm=False, allow_slm=False, max_ops=4, dur_hi=60))
         seq["ops"] = [o for o in seq["ops"] if o["t"] == "pulse"]  # no gaps, no parallel channel outlasting the pulses
-        phi = draw(st.sampled_from([0.4, 1.3, 2.0, 3.0]))
+        phi = draw(st.sampled_from([0.0, 0.4, 1.3, 2.0, 3.0] if kind == "phase_offset" else [0.4, 1.3, 2.0, 3.0]))
         for o in seq["ops"]:
             if o["t"] == "pulse":
                 o["phase"] = phi
                 if kind == "phase_negate":
                     o["det"] = {"k": "const", "d": build.wf_duration(o["amp"]), "v": 0.0}
+        if kind == "phase_offset" and len(seq["reg"]["ids"]) >= 2 and draw(st.integers(0, 2)) > 0:
+            # a local channel driven during the whole sequence with its own constant phase, and back-to-back global
+            # pulses each with its own phase: atoms carry different, time-dependent phases (some exactly 0), still
+            # without gaps.  Pulser adds the phases of simultaneous pulses on an atom, so everything is kept small
+            # enough that phase + offset never wraps around 2 pi.
+            if len(seq["ops"]) == 1:
+                o0 = seq["ops"][0]
+                d0 = build.wf_duration(o0["amp"])
+                seq["ops"].append({"t": "pulse", "ch": "g", "amp": {"k": "const", "d": d0, "v": 6.0}, "det": {"k": "const", "d": d0, "v": -1.0}, "phase": 0.0})
+            T_all = sum(build.wf_duration(o["amp"]) for o in seq["ops"])
+            seq["local"] = draw(st.sampled_from(seq["reg"]["ids"]))
+            phs = list(draw(st.permutations([0.0, 0.4, 1.3, 0.9])))
+            seq["ops"] = [dict(o, protocol="no-delay", phase=phs[i % 4]) for i, o in enumerate(seq["ops"])]
+            seq["ops"].insert(0, {"t": "pulse", "ch": "l", "amp": {"k": "const", "d": T_all, "v": draw(st.sampled_from([2.0, 5.0]))},
+                                  "det": {"k": "const", "d": T_all, "v": 0.0}, "phase": draw(st.sampled_from([0.0, 0.7, 1.3])), "protocol": "no-delay"})
+            seq["small_offset"] = True
     else:
         seq = draw(gen.seq_cases(n_min=2, n_max=7, basis="rydberg", allow_mod=False, max_ops=3, dur_hi=60, dmin=5.5, dmax=10.0))
     return {"kind": kind, "backend": backend, "seq": seq, "dt": draw(st.sampled_from([5, 10, 7, 2.5])),
             "angle": draw(st.floats(0.1, 6.2).map(lambda v: round(v, 4))), "shift": [draw(gen.half(-20, 20)), draw(gen.half(-20, 20))],
             # phase + offset stays below 2pi: no wrap-around
-            "offset": draw(st.floats(0.1, 3.0).map(lambda v: round(v, 4))), "precision": 1e-7, "seed": draw(st.integers(0, 2**20))}
+            "offset": draw(st.floats(0.1, 1.0 if seq.pop("small_offset", False) else 3.0).map(lambda v: round(v, 4))), "precision": 1e-7, "seed": draw(st.integers(0, 2**20))}
 
 
 def strategy(tier):
